@@ -17,8 +17,11 @@ STATS = {"queries": 0, "unsat": 0, "sat": 0, "unknown": 0, "time": 0.0, "trivial
 
 
 def reset_stats():
-    for k in STATS:
-        STATS[k] = 0 if k != "time" else 0.0
+    for k in list(STATS):
+        if k.startswith("route2_"):
+            del STATS[k]
+        else:
+            STATS[k] = 0 if k != "time" else 0.0
 
 
 def zvar(i):
@@ -476,3 +479,72 @@ def prove_formula(goal, what="", assumptions=(), timeout_ms=20000):
         for d in m.decls():
             mp_[d.name()] = str(m[d])
     return Verdict(rs, what, None, mp_ or None, dt, None, 1)
+
+
+# ---------------------------------------------------------------------------
+# second, independent route: let the solver do the polynomial reasoning itself
+# ---------------------------------------------------------------------------
+def _q_of(x):
+    if isinstance(x, SR):
+        return [x.v]
+    if isinstance(x, Cx):
+        return [x.re.v, x.im.v]
+    if isinstance(x, Q):
+        return [x]
+    if isinstance(x, Poly):
+        return [Q(x)]
+    c = complex(x)
+    return [Q(Poly.const(Fraction(c.real))), Q(Poly.const(Fraction(c.imag)))]
+
+
+def _den_z3(q):
+    t = None
+    for f, k in q.den.values():
+        fz = poly_to_z3(f)
+        for _ in range(k):
+            t = fz if t is None else t * fz
+    return t
+
+
+def solver_route_equal(lhs, rhs, timeout_ms=4000, max_terms=4000):
+    """Ask z3 directly whether lhs != rhs is satisfiable, handing it the two sides *without* forming their
+    difference in the engine: the cross-multiplied obligation  n_l * d_r != n_r * d_l  is built from the separate
+    numerators and denominator factors as z3 products, so the cancellation is z3's work (nlsat / arithmetic rewriter),
+    independent of the engine's normal form. Returns 'unsat' | 'sat' | 'unknown' | 'skipped'."""
+    ql, qr = _q_of(lhs), _q_of(rhs)
+    if len(ql) != len(qr):
+        ql = ql + [Q(Poly())] * (len(qr) - len(ql))
+        qr = qr + [Q(Poly())] * (len(ql) - len(qr))
+    if sum(len(q.n.t) for q in ql + qr) > max_terms:
+        return "skipped"
+    goals = []
+    for a, b in zip(ql, qr):
+        l = poly_to_z3(a.n)
+        r = poly_to_z3(b.n)
+        db, da = _den_z3(b), _den_z3(a)
+        if db is not None:
+            l = l * db
+        if da is not None:
+            r = r * da
+        goals.append(l != r)
+    rs, _m, _dt = check(context_constraints() + [z3.Or(goals)], timeout_ms)
+    return rs
+
+
+def prove_equal(lhs, rhs, what="", timeout_ms=20000, route_timeout_ms=4000):
+    """prove lhs == rhs. Two routes, both z3 verdicts: (1) engine normal form of lhs - rhs, residual handed to z3;
+    (2) the un-subtracted cross-multiplied form decided by z3 alone. The verdict is `unsat` if either route is `unsat`
+    and neither is `sat` with the other `unsat` (a disagreement is reported as `unknown`)."""
+    diff = lhs - rhs
+    v = prove_zero(diff, what, timeout_ms)
+    try:
+        r2 = solver_route_equal(lhs, rhs, route_timeout_ms)
+    except Exception:
+        r2 = "skipped"
+    STATS["route2_" + r2] = STATS.get("route2_" + r2, 0) + 1
+    if v.status == "unsat" and r2 == "sat":
+        v.status = "unknown"
+        v.what += " [engine normal form says 0 but the solver finds the cross-multiplied form satisfiable]"
+    elif v.status != "unsat" and r2 == "unsat":
+        v.status = "unsat"
+    return v
